@@ -15,7 +15,6 @@ mod mrun;
 mod mtypes;
 mod mworld;
 
-use std::path::PathBuf;
 
 use simcore::cli::*;
 use simcore::common::*;
@@ -26,7 +25,7 @@ fn meta(id: &str) -> PropMeta {
     let rule_common = "each evaluation = one seeded scenario (pool config, 1..N actor scripts, per-call outcome tables, enabled schedule points, strategy) run under one seeded schedule with every step checked; distinct = distinct hash of the per-run sequence (actor, stop site / pending / boundary, env decision); non-trivial = two operations of different actors overlapped with at least one context switch, or at least one injected fault fired inside an operation";
     match id {
         _ => PropMeta {
-            level: "exploration",
+            level: if id == "C03" { "fault_enumeration" } else { "exploration" },
             quick_secs: 20.0,
             thorough_secs: 420.0,
             rule: rule_common,
